@@ -272,6 +272,8 @@ inline std::string narrow(vf::Rng &r, uint64_t c) {
 template <typename C>
 struct Pool {
     std::vector<Value<C>> v;
+    std::vector<Value<C>> targets; // pointees of the pointer_sets value (never reallocated)
+    unsigned              pointer_sets = 0;
     static std::basic_string<C> W(const char *s) {
         return vm::widen<C>(s);
     }
@@ -316,6 +318,24 @@ struct Pool {
             x[W("list").c_str()].AddPointerToValue(&v[1]);
             x[W("list").c_str()].AddPointerToValue(&v[0]);
             x[W("obj").c_str()].SetPointerToValue(&v[3]);
+            v.push_back(Memory::Move(x));
+        }
+        {
+            // every set name the generator uses, reached through a pointer-to-value and NOT in sorted order: a sort= or
+            // group= on such a set has to work on a private copy (index of this value: pointer_sets)
+            static const char *tdocs[] = {"[30,10,20,\"b\",\"a\",5.5]", "[{\"y\":3,\"m\":1},{\"y\":1,\"m\":2},{\"y\":2,\"m\":0},{\"y\":1,\"m\":9}]",
+                                          "{\"z\":1,\"a\":2,\"m\":3}", "[[3],[1,2],[0]]", "[9,8,7]"};
+            static const char *names[] = {"list", "recs", "obj", "arr2", "one"};
+            targets.reserve(8);
+            Value<C> x;
+            for (unsigned i = 0; i < 5; ++i) {
+                std::basic_string<C> w = W(tdocs[i]);
+                targets.push_back(JSON::Parse(w.data(), SizeT(w.size())));
+                x[W(names[i]).c_str()].SetPointerToValue(&targets.back());
+            }
+            x[W("a").c_str()] = 5;
+            x[W("s").c_str()] = W("str<&>").c_str();
+            pointer_sets = unsigned(v.size());
             v.push_back(Memory::Move(x));
         }
         // a few random trees
